@@ -652,10 +652,27 @@ pub fn gen(seed: u64, n: usize) -> Vec<Value> {
 /// Child process for the panic clause of C09: builds a real pipe whose processing
 /// function panics at item `fail`, consumes everything.  The library's panic hook
 /// is left in place.  Prints what it saw; the parent judges exit/hang.
-pub fn child_panic(w: usize, n: usize, fail: usize) -> ! {
+pub fn child_panic(w: usize, n: usize, fail: usize, delay_ms: u64, prior: bool) -> ! {
+    if prior {
+        // an earlier pipe of the same process runs to completion first (its workers all find their upstream exhausted)
+        let c0 = Ctl::new(Mode::Free, w, 2, 0.0);
+        let src0 = Src { next: 0, n: 3, ctl: c0.clone() };
+        let got0 = src0.pipe(make_pipeline(&c0, None, false), w as u8).count();
+        println!("prior stream ended after {got0} items");
+    }
     let ctl = Ctl::new(Mode::Free, w, 1, 0.0);
     let src = Src { next: 0, n, ctl: ctl.clone() };
-    let pipe = src.pipe(make_pipeline(&ctl, Some(fail), false), w as u8);
+    let c = ctl.clone();
+    // the failing item takes `delay_ms` before it panics, so that the other workers get ahead of it
+    let pipeline: Pipeline<usize, usize> = Arc::new(move |x: usize| {
+        c.ev(json!({"e": "Call", "w": 0, "x": x, "k": true}));
+        if x == fail {
+            std::thread::sleep(Duration::from_millis(delay_ms));
+            panic!("verif: injected processing failure at item {x}");
+        }
+        x
+    });
+    let pipe = src.pipe(pipeline, w as u8);
     let mut got = 0;
     for _ in pipe {
         got += 1;
